@@ -346,7 +346,14 @@ func (conn *Conn) read(ctx *Context, async bool) {
 		if err != nil {
 			err = errors.New("reading error body: " + err.Error())
 		}
-		call.done()
+		if conn.readSched != nil {
+			// keep completions in issue order: a failed call goes through the same queue as successful ones
+			conn.readSched.Schedule(func() {
+				call.done()
+			})
+		} else {
+			call.done()
+		}
 		conn.bufferPool.PutBuffer(ctx.buffer)
 		putContext(ctx)
 	default:
